@@ -163,6 +163,15 @@ class StandardObserver:
 
         obs = self
 
+        # --- guarded hooks inside the population loops (NESSAI_VERIF=1)
+        try:
+            from nessai import _verif
+
+            if _verif.ENABLED:
+                _verif.set_callback(obs.on_verif)
+        except ImportError:
+            pass
+
         # --- iteration boundary
         orig_consume = NestedSampler.consume_sample
 
@@ -319,6 +328,46 @@ class StandardObserver:
 
         Model.evaluate_log_likelihood = evaluate_log_likelihood
 
+
+    # ------------------------------------------------------------------
+    def on_verif(self, name, d):
+        """Projection of the rejection-sampling batches exposed by the guarded hooks (C09)."""
+        def rows(a):
+            a = np.atleast_1d(a)
+            return [hash(a[i:i + 1].tobytes()) for i in range(a.size)]
+
+        if name == "populate_batch":
+            lw, lu, acc = np.asarray(d["log_w"], float), np.asarray(d["log_u"], float), np.asarray(d["accept"], bool)
+            with np.errstate(invalid="ignore"):
+                rule = lw > lu
+            ev = {"mode": d["mode"], "n": int(lw.size), "n_acc": int(acc.sum()),
+                  "mask_ok": bool(acc.shape == rule.shape and np.array_equal(acc, rule)),
+                  "norm_ok": bool(lw.size == 0 or np.nanmax(lw) <= 1e-12),
+                  "n_target": int(d["n_target"])}
+            if d["mode"] == "batch":
+                ev["n_before"] = int(d["n_before"])
+                if ev["n_before"] == 0:
+                    self._pool_acc = []
+                self._pool_acc = getattr(self, "_pool_acc", []) + rows(np.asarray(d["x"])[acc])
+            self.em.emit("pbatch", **ev)
+        elif name == "populate_pool":
+            x = np.asarray(d["x"])
+            got = rows(x)
+            if d["accumulate"]:
+                want = rows(np.asarray(d["accepted"]))[: int(d["n_target"])]
+            else:
+                want = getattr(self, "_pool_acc", [])[: int(d["n_target"])]
+                self._pool_acc = []
+            self.em.emit("ppool", n=int(x.size), n_target=int(d["n_target"]), accumulate=bool(d["accumulate"]),
+                         prefix_ok=bool(got == want), n_proposed=int(d["n_proposed"]),
+                         max_samples=int(d["max_samples"]))
+        elif name == "rejection_batch":
+            lw, lu = np.asarray(d["log_w"], float), np.asarray(d["log_u"], float)
+            with np.errstate(invalid="ignore"):
+                rule = np.where((lw - lu) >= 0)[0]
+            self.em.emit("pbatch", mode="single", n=int(lw.size), n_acc=int(len(d["indices"])),
+                         mask_ok=bool(np.array_equal(np.asarray(d["indices"]), rule)),
+                         norm_ok=bool(lw.size == 0 or np.nanmax(lw) <= 1e-12), n_target=int(d["n_target"]))
 
     # ------------------------------------------------------------------
     def take_draws(self):
